@@ -224,3 +224,6 @@ def replay(doc):
             return True, "reproduced: " + res.violations[0]["summary"]
         return False, "strace run found no use of an inherited descriptor"
     return pool_checks.replay(mod, doc)
+
+
+RULE += ' Also (waves 8-9): bases 16-23 pair twin objects / child threads / a parent thread inside a read / a full descriptor table with the buffered and record variants explicitly; thorough draws the options independently of the variant from base 24 on.'
